@@ -2,12 +2,19 @@
 from checks.numlib import *
 
 META = {
-    "text": "Lean theorems about the funding algebra every send is built from (take_exact, take_iff_covered, max_respected, concat_conserves, "
-            "portions_sum, portions_shape — unbounded amounts, any number of parts/portions); Spec is tied to compiler+VM by the end-to-end differential; "
+    "text": "Lean theorems on Model.Numscript.Spec: send_exact (the postings of `send [A n]` are non-negative, in asset A, and add up to n minus what the "
+            "destination keeps), send_exact_allot / send_exact_allot_checked (source allotments: every source delivers its share allocate(ps,n); the shares add up "
+            "to n for every accepted portion list — portions_of_checked, portions_of_remaining), send_all_exact (`send [A *]`: everything the sources provide "
+            "minus kept; send_all_asset: the asset moved is that of a source occurrence — the overdraft clause's asset wins over the named one), dest_conserves "
+            "(+ kept-or-dest, caps, allotment: emitted + handed back = received), dest_cap_respected, takeFromSource_exact, source_cap_respected "
+            "(max m from s gives min(m, s); exactly m over an unbounded source), postings_nonneg for whole runs, ordered_sources_drain (a later part is "
+            "touched only when all earlier parts are taken in full), on top of the funding algebra (take_exact, take_iff_covered, max_respected, "
+            "concat_conserves, portions_sum, portions_shape; allocate_sum_any: no sign condition). Spec is tied to compiler+VM by the end-to-end differential; "
             "an independent oracle checks non-negativity and exactness of single-send scripts on the implementation's postings.",
-    "note": "Trusted: Lean kernel (+ Mathlib's linarith/nlinarith for the portion arithmetic); Spec; harness pretty-printer. The lift of the algebraic laws "
-            "through Spec.evalSource/evalDest (send_exact) is in progress.",
-    "technique": "Lean 4 proof (induction over fundings; nlinarith for floors) + differential correspondence + exactness oracle",
+    "note": "Trusted: Lean kernel (+ Mathlib's linarith/nlinarith/ring1 for the portion arithmetic); Spec; harness pretty-printer. Theorems are about Spec; the lift "
+            "to the bytecode VM rests on the differential (until C08's compile_correct). send_exact_allot needs positive portion denominators (the AST "
+            "admits a zero denominator the parser never builds).",
+    "technique": "Lean 4 proof (induction over fundings, mutual structural recursion over the Spec interpreter; nlinarith for floors) + differential correspondence + exactness oracle",
     "design_ref": "5 (C03), 3.1",
 }
 
